@@ -504,6 +504,149 @@ def _st_model():
 
 
 # ---------------------------------------------------------------------------
+# 2b. histories over one VariationModel: sparse evaluations, reorderMasters, full evaluations.
+# The model caches sub-models keyed by the None/not-None pattern of the items; reorderMasters permutes
+# the master order. After any history every evaluation must still be the one the *current* master
+# order and values define (reference: exact-rational solve on the returned supports).
+
+
+def check_mhist(acc, case):
+    """case: model core + values (one vector) + steps [["reorder", perm] | ["das", mask] | ["sub", mask] | ["full"]]"""
+    from fontTools.varLib.models import VariationModel
+
+    clause = "model-history"
+    axes, den, locs = case["axes"], case["den"], [list(l) for l in case["locs"]]
+    dense = case["dense"]
+    cur_f = [_locdict(axes, l, den, dense) for l in locs]
+    cur_q = [_locq(axes, l, den) for l in locs]
+    order = case.get("order")
+    ok, model = _lib(acc, clause, case, lambda: VariationModel(cur_f, axisOrder=list(order) if order is not None else None))
+    if not ok:
+        return False, ["mhist:exception"]
+    eden = 8
+    ev = [({ax: Fraction(n, eden) for ax, n in zip(axes, p) if n}, {ax: n / eden for ax, n in zip(axes, p) if dense or n}) for p in _eval_points(len(axes), case["eseed"], eden, limit=12)]
+    vals = list(case["values"])
+    labels = ["mhist:steps=%d" % len(case["steps"])]
+    seen_patterns = {}
+    reorders = 0
+    interesting = False
+    for si, step in enumerate(case["steps"]):
+        op = step[0]
+        tag = "step%d:%s" % (si, op)
+        if op == "reorder":
+            perm = list(step[1])
+            ok, res = _lib(acc, clause, case, model.reorderMasters, list(vals), perm)
+            if not ok:
+                return False, labels
+            want = [vals[i] for i in perm]
+            if list(res) != want:
+                acc.fail(clause, "reorderMasters-list", "%r -> %r, expected %r" % (vals, res, want), case, tag)
+                return False, labels
+            vals = want
+            cur_q = [cur_q[i] for i in perm]
+            cur_f = [cur_f[i] for i in perm]
+            if perm != sorted(perm):
+                reorders += 1
+                labels.append("mhist:reorder")
+        elif op == "full":
+            if not _check_one_model(acc, case, model, axes, cur_q, cur_f, [list(vals)], ev, tag):
+                return False, labels
+        else:
+            mask = list(step[1])
+            keep = [i for i, m in enumerate(mask) if m]
+            items = [v if m else None for v, m in zip(vals, mask)]
+            pat = tuple(mask)
+            if pat in seen_patterns and seen_patterns[pat] != reorders:
+                interesting = True
+                labels.append("mhist:same-sparse-pattern-after-reorder")
+            seen_patterns[pat] = reorders
+            if op == "sub":
+                ok, res = _lib(acc, clause, case, model.getSubModel, items)
+                if not ok:
+                    return False, labels
+                sub, subitems = res
+                if list(subitems) != [vals[i] for i in keep]:
+                    acc.fail(clause, "getSubModel-items", "%r -> %r" % (items, subitems), case, tag)
+                    return False, labels
+                if sub is model and not all(mask):
+                    acc.fail(clause, "getSubModel-returned-full-model-for-sparse-items", "%r" % (items,), case, tag)
+                    return False, labels
+                if not _check_one_model(acc, case, sub, axes, [cur_q[i] for i in keep], [cur_f[i] for i in keep], [list(subitems)], ev, tag):
+                    return False, labels
+            else:  # das
+                ok, res = _lib(acc, clause, case, model.getDeltasAndSupports, items)
+                if not ok:
+                    return False, labels
+                deltas, sups = res
+                try:
+                    supports = [{ax: (Q(t[0]), Q(t[1]), Q(t[2])) for ax, t in sup.items()} for sup in sups]
+                except Exception as e:
+                    acc.fail(clause, "malformed-supports", "%s: %r" % (e, sups), case, tag)
+                    return False, labels
+                if len(deltas) != len(keep) or len(supports) != len(keep):
+                    acc.fail(clause, "getDeltasAndSupports-length", "%d deltas, %d supports for %d supplied masters" % (len(deltas), len(supports), len(keep)), case, tag)
+                    return False, labels
+                scale = max([1.0] + [abs(float(v)) for v in vals] + [abs(float(d)) for d in deltas])
+                for i in keep:
+                    got = sum(Q(d) * R.region_scalar(cur_q[i], sup) for d, sup in zip(deltas, supports))
+                    if _off(float(got), Q(vals[i]), EPS * scale * 10):
+                        acc.fail(
+                            clause,
+                            "sparse-deltas-do-not-reproduce-master",
+                            "masters %r, supplied %r: deltas %r x supports evaluate to %s at master %r, its value is %s" % (cur_f, items, deltas, float(got), cur_f[i], vals[i]),
+                            case,
+                            tag,
+                        )
+                        return False, labels
+            labels.append("mhist:%s" % op)
+    return bool(interesting or reorders), sorted(set(labels))
+
+
+def _st_mhist():
+    from hypothesis import strategies as st
+
+    val = st.one_of(st.integers(-1000, 1000), st.builds(Fraction, st.integers(-5000, 5000), st.sampled_from([2, 3, 7])))
+
+    @st.composite
+    def s(draw):
+        m = draw(_st_model_core(max_axes=3, dens=(4, 4, 2, 8), max_extra=6, min_extra=2))
+        n = len(m["locs"])
+        m.pop("mask", None)
+        values = draw(st.lists(val, min_size=n, max_size=n))
+        origin = m["origin"]
+        # a small pool of sparse patterns (always keeping the default master, which moves with reorders),
+        # so that the same pattern is likely to be asked again after a reorder
+        steps = []
+        cur_origin = origin
+        pool = []
+        nsteps = draw(st.integers(2, 7))
+        for _ in range(nsteps):
+            kind = draw(st.sampled_from(["das", "das", "sub", "reorder", "reorder", "full"]))
+            if kind == "reorder":
+                perm = draw(st.permutations(list(range(n))))
+                steps.append(["reorder", list(perm)])
+                cur_origin = list(perm).index(cur_origin)
+                # patterns are positional: a pattern stays usable only if it keeps the (moved) default master
+                continue
+            if kind == "full":
+                steps.append(["full"])
+                continue
+            usable = [p for p in pool if p[cur_origin]]
+            if usable and draw(st.integers(0, 2)) > 0:
+                mask = draw(st.sampled_from(usable))
+            else:
+                mask = [True if i == cur_origin else draw(st.booleans()) for i in range(n)]
+                if all(mask):
+                    mask[(cur_origin + 1) % n] = False
+                pool.append(mask)
+            steps.append([kind, list(mask)])
+        m.update(k="mhist", values=values, steps=steps, eseed=draw(st.integers(0, 2**32)))
+        return m
+
+    return s()
+
+
+# ---------------------------------------------------------------------------
 # 3. variation store
 
 
@@ -1327,7 +1470,7 @@ def _rnd(q):
 # ---------------------------------------------------------------------------
 # driving
 
-CHECKS = {"tent": check_tent, "model": check_model, "store": check_store, "mstore": check_mstore, "iup": check_iup, "tv": check_tv}
+CHECKS = {"tent": check_tent, "model": check_model, "mhist": check_mhist, "store": check_store, "mstore": check_mstore, "iup": check_iup, "tv": check_tv}
 
 
 def jobs(tier, seed):
@@ -1346,6 +1489,7 @@ def jobs(tier, seed):
     if thorough:
         gen("tent", 16, 9000)
         gen("model", 16, 5000)
+        gen("mhist", 16, 2500)
         gen("store", 16, 2500)
         gen("mstore", 8, 2000)
         gen("iup", 16, 7000)
@@ -1353,6 +1497,7 @@ def jobs(tier, seed):
     else:
         gen("tent", 6, 1500)
         gen("model", 8, 700)
+        gen("mhist", 6, 400)
         gen("store", 10, 220)
         gen("mstore", 3, 300)
         gen("iup", 6, 1100)
@@ -1360,7 +1505,7 @@ def jobs(tier, seed):
     return J
 
 
-STRATS = {"tent": _st_tent, "model": _st_model, "store": _st_store, "mstore": _st_mstore, "iup": lambda: _st_glyph("iup"), "tv": lambda: _st_glyph("tv")}
+STRATS = {"tent": _st_tent, "model": _st_model, "mhist": _st_mhist, "store": _st_store, "mstore": _st_mstore, "iup": lambda: _st_glyph("iup"), "tv": lambda: _st_glyph("tv")}
 
 
 def run_job(job):
@@ -1414,6 +1559,10 @@ MUST_OCCUR = [
     "model:box-split",
     "model:submodel",
     "model:fraction-values",
+    "mhist:reorder",
+    "mhist:das",
+    "mhist:sub",
+    "mhist:same-sparse-pattern-after-reorder",
     "store:vardata-after-opt=2",
     "store:long-words",
     "store:no-variation-index",
